@@ -1,35 +1,18 @@
 (* Correspondence cases for C13: a script run on the real VM (vm.New, price getter fee.Opcode(base, op),
    gas limit) against the model.  The model is the executable specification, so a disagreement is code 2. *)
-From NG Require Import Common.Tactics Common.HarnessLib VM.Model VM.Obs.
+From NG Require Import Common.Tactics Common.HarnessLib VM.Model.
+From NG Require Export VM.Obs.
 Open Scope Z_scope.
-
-Inductive outcome :=
-| OHalt (gas_datoshi : Z) (stack : list Z)     (* GasConsumed(), serialised Estack (VM/Obs.v) *)
-| OFault (gas_datoshi : Z).
 
 Inductive case :=
 | CRun (prog : list Z) (base limit_pico : Z) (fuel : positive) (impl : outcome).
-
-Definition outcome_of (r : result) : option outcome :=
-  match r with
-  | Halted s => Some (OHalt (datoshi (s_gas s)) (ser_stack (s_heap s) (final_stack s)))
-  | Faulted g => Some (OFault (datoshi g))
-  | Running _ => None
-  end.
-
-Definition outcome_eqb (a b : outcome) : bool :=
-  match a, b with
-  | OHalt g s, OHalt g' s' => (g =? g') && zlist_eqb s s'
-  | OFault g, OFault g' => g =? g'
-  | _, _ => false
-  end.
 
 Definition check_case (c : case) : N :=
   match c with
   | CRun prog base limit fuel impl =>
       if negb (bytes_okb prog) then 3%N else
       match outcome_of (runp fuel (init_state prog 1%N base limit)) with
-      | None => 3%N
+      | None => 2%N      (* the model is still running after the budget the implementation needed *)
       | Some o => if outcome_eqb o impl then 0%N else 2%N
       end
   end.
